@@ -373,6 +373,25 @@ def stepRef (st : DState) (cmd : String) (args : List String) : DState × String
       | _ => (st, "bad-op")
   | _ => (st, "bad-op")
 
+def stepFpi (st : DState) (cmd : String) (args : List String) : DState × String :=
+  match cmd, splitBar args with
+  -- fpi.run tol maxIter | prev0 ; prev1 ; ... | y0 ; y1 ; ...     (logged per-sweep inputs and responses of ONE sample)
+  | "fpi.run", [[tol, mi], prevs, ys] =>
+      match parseRat? tol, mi.toNat?, parseMatrix? prevs, parseMatrix? ys with
+      | some t, some m, some ps, some yy =>
+          -- the model `fpiRun` is executed with F := the logged response to each logged iterate and
+          -- mix := the logged iterate of the next sweep (both are parameters of the model)
+          let F : List Rat → List Rat := fun p =>
+            match (ps.zip yy).find? (fun e => e.1 == p) with
+            | some (_, y) => y
+            | none => []
+          let mix : Nat → List (List Rat) → List (List Rat) → List Rat := fun k _ _ => ps.getD (k + 1) []
+          let s0 : FpiState := { prev := ps.getD 0 [], y := [] }
+          let s := fpiRun F mix t m (m + 2) s0 [] []
+          (st, s!"conv={s.conv} valid={s.valid} sweeps={s.k + 1} y={showRats s.y}")
+      | _, _, _, _ => (st, "bad-op")
+  | _, _ => (st, "bad-op")
+
 def step (st : DState) (line : String) : DState × String :=
   match (line.trimAscii.toString.splitOn " ").filter (· ≠ "") with
   | [] => (st, "")
@@ -383,6 +402,7 @@ def step (st : DState) (line : String) : DState × String :=
       else if cmd.startsWith "sg." then stepSg st cmd args
       else if cmd.startsWith "sys." then stepSys st cmd args
       else if cmd.startsWith "ref." then stepRef st cmd args
+      else if cmd.startsWith "fpi." then stepFpi st cmd args
       else (st, "bad-op")
 
 partial def loop (h : IO.FS.Stream) (out : IO.FS.Stream) (st : DState) : IO Unit := do
